@@ -215,6 +215,10 @@ pub struct Config {
     /// merge sources report honest size hints instead of the default (0, None)
     #[serde(default)]
     pub src_hints: bool,
+    /// with `src_hints`: an open source that has nothing at hand still reports a lower bound of 1
+    /// (it knows one more item is coming: a paced stream); the promise is kept when it is closed
+    #[serde(default)]
+    pub src_promise: bool,
     /// name of the workload that generated this run (evidence only)
     pub workload: String,
 }
